@@ -420,6 +420,10 @@ func (r *run) observe() string {
 	for i, p := range r.scopes {
 		rs := map[string]struct{}{}
 		for _, n := range p.real.GetValueSymbols() {
+			if _, dup := rs[n]; dup {
+				// a dictionary lists each key once
+				return fmt.Sprintf("scope %d value symbols list %q more than once: %v", i, n, p.real.GetValueSymbols())
+			}
 			rs[n] = struct{}{}
 		}
 		ms := map[string]struct{}{}
@@ -431,6 +435,9 @@ func (r *run) observe() string {
 		}
 		rs = map[string]struct{}{}
 		for _, n := range p.real.GetTypeSymbols() {
+			if _, dup := rs[n]; dup {
+				return fmt.Sprintf("scope %d type symbols list %q more than once: %v", i, n, p.real.GetTypeSymbols())
+			}
 			rs[n] = struct{}{}
 		}
 		ms = map[string]struct{}{}
